@@ -31,7 +31,10 @@ func Open(r io.ReaderAt, size int64) (*XAR, error) {
 		return nil, err
 	}
 	base := int64(hdr.HeaderSize)
-	toc, tocHash, err := parseTOC(io.NewSectionReader(r, base, hdr.CompressedSize), hashType)
+	if hdr.CompressedSize < 0 || hdr.CompressedSize > size || hdr.UncompressedSize < 0 || hdr.UncompressedSize > maxTOCSize {
+		return nil, errors.New("unreasonable TOC size")
+	}
+	toc, tocHash, err := parseTOC(io.NewSectionReader(r, base, hdr.CompressedSize), hashType, hdr.UncompressedSize)
 	if err != nil {
 		return nil, err
 	}
@@ -53,6 +56,9 @@ func Open(r io.ReaderAt, size int64) (*XAR, error) {
 		heap:     io.NewSectionReader(r, base, 1<<62),
 	}
 	if toc.Signature != nil {
+		if toc.Signature.Size < 0 || toc.Signature.Size > size {
+			return nil, errors.New("reading signature: size out of range")
+		}
 		s.ClassicSignature = make([]byte, toc.Signature.Size)
 		if _, err := r.ReadAt(s.ClassicSignature, base+toc.Signature.Offset); err != nil {
 			return nil, fmt.Errorf("reading signature: %w", err)
@@ -63,6 +69,9 @@ func Open(r io.ReaderAt, size int64) (*XAR, error) {
 		}
 	}
 	if toc.XSignature != nil {
+		if toc.XSignature.Size < 0 || toc.XSignature.Size > size {
+			return nil, errors.New("reading CMS signature: size out of range")
+		}
 		s.CMSSignature = make([]byte, toc.XSignature.Size)
 		if _, err := r.ReadAt(s.CMSSignature, base+toc.XSignature.Offset); err != nil {
 			return nil, fmt.Errorf("reading CMS signature: %w", err)
@@ -101,18 +110,29 @@ func parseHeader(r io.Reader) (hdr fileHeader, hashType crypto.Hash, err error) 
 	return
 }
 
-func decompress(r io.Reader) ([]byte, error) {
+// maxTOCSize bounds what a header may declare as the uncompressed size of the table of contents
+const maxTOCSize = 100e6
+
+// decompress inflates at most limit bytes; a stream that yields more than the header declared is refused
+func decompress(r io.Reader, limit int64) ([]byte, error) {
 	zr, err := zlib.NewReader(r)
 	if err != nil {
 		return nil, err
 	}
-	return io.ReadAll(zr)
+	b, err := io.ReadAll(io.LimitReader(zr, limit+1))
+	if err != nil {
+		return nil, err
+	}
+	if int64(len(b)) > limit {
+		return nil, errors.New("TOC is larger than its declared uncompressed size")
+	}
+	return b, nil
 }
 
-func parseTOC(r io.Reader, hashType crypto.Hash) (*tocToc, []byte, error) {
+func parseTOC(r io.Reader, hashType crypto.Hash, limit int64) (*tocToc, []byte, error) {
 	tocHash := hashType.New()
 	r = io.TeeReader(r, tocHash)
-	decomp, err := decompress(r)
+	decomp, err := decompress(r, limit)
 	if err != nil {
 		return nil, nil, fmt.Errorf("decompressing TOC: %W", err)
 	}
